@@ -3,7 +3,7 @@
    OCaml's own; N, positive, nat, ascii, string, comparison stay Coq datatypes. *)
 Require Extraction.
 Require ExtrOcamlBasic.
-From RC Require Import Base.Res Base.Wire Model.Enums Gen.EnumTables Gen.Merge Model.Open Model.Negotiate Gen.CmpChain Model.Select Model.Nlri Model.NlriOrd.
+From RC Require Import Base.Res Base.Wire Model.Enums Gen.EnumTables Gen.Merge Model.Open Model.Negotiate Gen.CmpChain Model.Select Model.Nlri Model.NlriOrd Model.AsPath Gen.AttrRules Model.Attr.
 Extraction Language OCaml.
 Set Extraction KeepSingleton.
 Extraction "../ocaml/model.ml"
@@ -17,4 +17,8 @@ Extraction "../ocaml/model.ml"
   Select.best_backup_idx Select.best_backup_generic
   Wire.parser_of Nlri.parse_nlri Nlri.compose_nlri Nlri.compose_len Nlri.nlri_iter
   NlriOrd.nlri_eqb NlriOrd.nlri_cmp NlriOrd.prefix_cmp NlriOrd.hash_input
+  AsPath.to_as_path AsPath.wire_hops AsPath.wire_segments AsPath.as_path_check AsPath.try_to_asn16_path
+  AsPath.as_path_prepend AsPath.segs_eqb AsPath.path_hash AsPath.hop_count_path_selection
+  Wire.unbe Attr.compose Attr.compose_len Attr.wire_attr_parse Attr.to_owned Attr.wattr_code Attr.wattr_flags
+  Attr.attr_code Attr.has_ext
   EnumTables.all_enum_widths EnumTables.all_enum_names.
